@@ -77,7 +77,9 @@ func Preview(sql string) int {
 	isNotLetter := func(r rune) bool { return !unicode.IsLetter(r) }
 	firstWord := strings.TrimLeftFunc(trimmed, isNotLetter)
 
-	if end := strings.IndexFunc(firstWord, unicode.IsSpace); end != -1 {
+	// a keyword ends at the first non-letter: whitespace, but also a comment or a
+	// parenthesis written directly behind it (`insert/**/into`, `select(1)`)
+	if end := strings.IndexFunc(firstWord, isNotLetter); end != -1 {
 		firstWord = firstWord[:end]
 	}
 	// Comparison is done in order of priority.
